@@ -695,3 +695,109 @@ Proof.
   assert (0 < P18 * P18 * F_P53) by nia.
   apply (Z.mul_le_mono_pos_r _ _ (P18 * P18 * F_P53)); assumption.
 Qed.
+
+(* every entry of the farming calculation is the share formula applied to an eligible value *)
+Lemma collect_in l : forall ps, collect l = Ok ps -> forall p, In p ps -> In (Ok p) l.
+Proof.
+  induction l as [|o l IH]; intros ps E p Hp; cbn [collect] in E.
+  - injection E as <-. contradiction.
+  - destruct o as [q| |]; try discriminate. destruct (collect l) as [qs| |]; try discriminate.
+    injection E as <-. destruct Hp as [->|Hp]; [left; reflexivity|right; eapply IH; eauto].
+Qed.
+
+Lemma farm_calc_share e coins ps : farm_calc e coins = Ok ps -> forall a r, In (a, r) ps ->
+  exists s, In (a, s) (eligible e) /\ r = share_reward coins (zsum (map snd (eligible e))) s /\ r < two63.
+Proof.
+  intros E a r Hin.
+  assert (G : forall fs : list (Z * Z), let total := zsum (map snd fs) in
+            forall fs', (forall f, In f fs' -> In f fs) ->
+            collect (map (fun f => coin_of_float (fst f) (share_reward coins total (snd f))) fs') = Ok ps ->
+            exists s, In (a, s) fs /\ r = share_reward coins total s /\ r < two63).
+  { intros fs total fs' Hsub Ec. pose proof (collect_in _ _ Ec _ Hin) as Hi. apply in_map_iff in Hi.
+    destruct Hi as ([a' s] & Hc & Hf). cbn [fst snd] in Hc. unfold coin_of_float in Hc.
+    destruct (Z.leb_spec two63 (share_reward coins total s)); [discriminate|]. injection Hc as -> <-.
+    exists s. split; [apply Hsub; assumption|]. split; [reflexivity|assumption]. }
+  destruct e as [|fs|fs child]; cbn [farm_calc eligible] in *; [discriminate| |].
+  - destruct (zsum (map snd fs) =? 0); [injection E as <-; contradiction|]. eapply G; [|exact E]. auto.
+  - set (ms := combine (map fst fs) (min_supplies (map snd fs) child)) in *.
+    destruct (zsum (map snd ms) =? 0); [injection E as <-; contradiction|]. eapply G; [|exact E].
+    intros f Hf. apply filter_In in Hf. tauto.
+Qed.
+
+Lemma farm_share_bound e coins ps a r : farm_calc e coins = Ok ps -> In (a, r) ps -> 0 <= coins ->
+  Forall (fun f => 0 <= snd f) (eligible e) ->
+  let total := zsum (map snd (eligible e)) in
+  exists s, In (a, s) (eligible e) /\
+    (P18 <= s -> kf_C19_1 coins total = false -> holds_C19_share coins total s r = true).
+Proof.
+  intros E Hin Hc Hnn total. destruct (farm_calc_share _ _ _ E _ _ Hin) as (s & Hs & -> & _).
+  exists s. split; [assumption|]. intros Hs1 Hk. fold total.
+  assert (Ht : 0 <= total).
+  { unfold total. clear -Hnn. induction Hnn as [|f l Hf _ IH]; cbn [map zsum]; lia. }
+  assert (Hpos : 0 < total).
+  { assert (s <= total); [|dec_consts; lia]. unfold total. clear -Hnn Hs.
+    induction Hnn as [|f l Hf Hl IH]; [contradiction|]. cbn [map zsum].
+    assert (0 <= zsum (map snd l)) by (clear -Hl; induction Hl; cbn [map zsum]; lia).
+    destruct Hs as [->|Hs]; [cbn [snd]; lia|]. specialize (IH Hs). lia. }
+  apply share_bound; assumption.
+Qed.
+
+Lemma epoch_cap : forall now calc bal g g' bal' paid,
+  trigger now calc bal g = Ok (g', bal', paid) ->
+  0 <= pay_total paid <= g_distributed g' - g_distributed g /\
+  g_distributed g' - g_distributed g <= (if g_triggered g' =? g_triggered g then 0 else epoch_allocation g) /\
+  (g_triggered g' <> g_triggered g ->
+     g_triggered g' = g_triggered g + 1 /\ epoch_allocation g <= g_deposit g - g_distributed g /\
+     g_triggered g <> g_total g /\ g_active g = true /\ g_start g <= now) /\
+  bal' = bal - pay_total paid /\ (0 <= bal -> 0 <= bal') /\ g_deposit g' = g_deposit g /\ g_total g' = g_total g.
+Proof.
+  intros now calc bal g g' bal' paid E.
+  pose proof (trigger_spec _ _ _ _ _ _ _ E) as (D1 & D2 & D3 & D4 & D5 & D6 & D7). cbv zeta in *.
+  destruct D7 as (P1 & P2 & P3 & [(A & B & C)|(A & B & C & D & F)]).
+  - rewrite A, Z.eqb_refl. repeat split; try lia.
+  - destruct (Z.eqb_spec (g_triggered g') (g_triggered g)); [lia|]. repeat split; try lia; tauto.
+Qed.
+
+Lemma epoch_cap_swapfee : forall calc recv bal g g' bal' paid,
+  g_swap g = true -> 0 <= g_deposit g -> trigger_swap calc recv bal g = Ok (g', bal', paid) ->
+  kf_C19_2 calc recv g = false ->
+  0 <= pay_total paid <= g_distributed g' - g_distributed g /\
+  g_distributed g' - g_distributed g <= g_deposit g /\
+  ((g' = g /\ bal' = bal) \/
+   exists r, recv = Ok r /\ g_triggered g' = g_triggered g + 1 /\
+             g_deposit g' = g_deposit g - (g_distributed g' - g_distributed g) + r /\ bal' = bal - pay_total paid + r).
+Proof.
+  intros calc recv bal g g' bal' paid Hs Hd E Hk.
+  apply trigger_swap_spec in E. destruct E as [(E1 & B & C & B' & D)|(tot & r & E1 & E2 & C & D & F & G & G')].
+  - subst g'. destruct D as [D|[D|D]]; [|congruence|congruence]. split; [lia|]. split; [lia|]. left. split; [reflexivity|lia].
+  - subst g' recv. cbn [g_swap_paid g_distributed g_deposit g_triggered]. split; [lia|]. split; [lia|]. right. exists r.
+    repeat split; lia.
+Qed.
+
+Lemma cumulative_all : forall ops g, In g (r_gauges (rrun rinit ops)) -> g_swap g = false ->
+  0 <= g_distributed g <= g_deposit g.
+Proof.
+  intros ops g Hin Hs. pose proof (rrun_ginvr ops rinit ltac:(constructor)) as HG.
+  rewrite Forall_forall in HG. exact (HG g Hin Hs).
+Qed.
+
+Lemma custody_swapfee_refuted : exists ops d, forallb op_wf ops = true /\ run_clean rinit ops = false /\
+  let s := rrun rinit ops in
+  r_bal s d < owed d s /\ holds_C19_custody d (r_bal s d) (r_gauges s) (r_exts s) = false.
+Proof.
+  exists [CreateSwap 1 0 86400; Create 1 1000 5 400000 0 129600 1000 true;
+          Begin 10 (mkBenv [] [] []); Begin 50000 (mkBenv [FarmErr; FarmErr] [Ok 500; Err 1] []);
+          Begin 140000 (mkBenv [FarmPlain [(7, 1000000000000000000)]; FarmErr] [Err 1; Err 1] []);
+          Begin 230000 (mkBenv [FarmPlain [(7, 1000000000000000000)]; FarmErr] [Err 1; Err 1] [])], 1.
+  vm_compute. repeat split.
+Qed.
+
+Lemma custody_program_refuted : exists ops d, forallb op_wf ops = true /\ run_clean rinit ops = false /\
+  let s := rrun rinit ops in
+  r_bal s d < owed_g d (r_gauges s) /\ holds_C19_custody d (r_bal s d) (r_gauges s) (r_exts s) = false.
+Proof.
+  exists [ExtCreate 0 5 5000000000000000000 1 1 0 5000000000000000000 true; Create 5 1000 3 500000 0 86400 1000 true;
+          Begin 10 (mkBenv [FarmErr] [] [mkXenv 6000000 [(11,1000000,0);(12,1000000,0);(13,1000000,0);(14,1000000,0);(15,1000000,0);(16,1000000,0)]]);
+          Begin 86401 (mkBenv [FarmErr] [] [mkXenv 6000000 [(11,1000000,0);(12,1000000,0);(13,1000000,0);(14,1000000,0);(15,1000000,0);(16,1000000,0)]])], 5.
+  vm_compute. repeat split.
+Qed.
